@@ -124,15 +124,18 @@ func (c *fctx) specialCallExpr(call *ast.CallExpr) (string, bool) {
 	switch m {
 	case "math/big.Int.Exp":
 		// z.Exp(x, y, m) = x**y mod |m| (m = 0: x**y); the receiver only provides the storage
+		c.needFreshBig(call, recv)
 		return "(Go.bigExp " + c.expr(call.Args[0]) + " " + c.expr(call.Args[1]) + " " + c.expr(call.Args[2]) + ")", true
 	case "math/big.Int.Bytes":
 		return "(natBytesMin " + c.expr(recv) + ")", true
 	case "math/big.Int.SetUint64":
+		c.needFreshBig(call, recv)
 		if nt, ok := c.natTerm(call.Args[0]); ok {
 			return "(" + nt + " : Nat)", true
 		}
 		c.fail(call, "SetUint64 argument")
 	case "math/big.Int.SetBytes":
+		c.needFreshBig(call, recv)
 		return "(beNat " + c.expr(call.Args[0]) + ")", true
 	case "bytes.Buffer.Bytes":
 		return c.expr(recv), true
@@ -188,7 +191,8 @@ func (c *fctx) specialAssign(s *ast.AssignStmt) bool {
 	if !ok {
 		return false
 	}
-	if m, _ := c.stdMethod(call); m == "math/big.Int.SetString" {
+	if m, recv := c.stdMethod(call); m == "math/big.Int.SetString" {
+		c.needFreshBig(call, recv)
 		// v, ok := new(big.Int).SetString(s, 16)
 		if len(s.Lhs) != 2 || len(call.Args) != 2 {
 			c.fail(s, "SetString results")
@@ -407,3 +411,24 @@ func (c *fctx) fieldMadeHere(e ast.Expr) bool {
 
 var _ = fmt.Sprintf
 var _ = strings.Join
+
+// needFreshBig: the setters of math/big.Int (Exp, SetString, SetBytes, SetUint64) store their result in the
+// receiver; they are translated as pure functions of their arguments, which is only right when the receiver
+// is a fresh object (new(big.Int)) that nothing else can see
+func (c *fctx) needFreshBig(at ast.Node, recv ast.Expr) {
+	for {
+		p, ok := recv.(*ast.ParenExpr)
+		if !ok {
+			break
+		}
+		recv = p.X
+	}
+	if call, ok := recv.(*ast.CallExpr); ok {
+		if id, ok := call.Fun.(*ast.Ident); ok && id.Name == "new" && len(call.Args) == 1 {
+			if _, isB := c.info.Uses[id].(*types.Builtin); isB {
+				return
+			}
+		}
+	}
+	c.fail(at, "math/big setter on a receiver that is not a fresh new(big.Int): the result is also stored in an object that outlives the call")
+}
